@@ -48,6 +48,17 @@ REQUIRED_THEOREMS = [
     "insert_conserves_compiled_ghost_eps", "insert_conserves_compiled_ghost2_eps",
     "insert_interpreted_eq_compiled_eps", "insert_interpreted_eq_compiled2_eps", "insert_interpreted_eq_compiled3_eps",
     "driver_floor_instance_eq",
+    # Props/C16Gap.lean (gap round): ghost-mode inserter on 3 axes, interpolate_to_grid, bc mode on the padded array
+    # the conditions define (both faces, value / derivative, corner square), multi-axis statements at the real eps
+    "insert_compiled_ghost_integral3", "insert_conserves_compiled_ghost3", "insert_conserves_compiled_ghost3_eps",
+    "interpolate_to_grid_spec", "interpolate_to_grid_same_grid", "interpolate_to_grid_same_grid2",
+    "interpolate_to_grid_same_grid3", "interpolate_to_grid_outside",
+    "padFull1", "padFull2_x", "padFull2_y", "padFull3_x", "padFull2_corner",
+    "bc_mode_approaches_imposed_condition", "bc_mode_approaches_imposed_condition2",
+    "bc_mode_approaches_imposed_condition2_y", "bc_mode_approaches_imposed_condition3",
+    "bc_mode_approaches_imposed_condition_eps", "bc_mode_approaches_imposed_condition2_eps",
+    "bc_mode_corner_square2", "bc_mode_corner_square_value_on_face", "bc_mode_corner_square_misses_imposed_value",
+    "periodic_seam_both2_eps", "periodic_seam_all3_eps", "domain_corner2_eps", "boundary_strip_nearest2_eps",
 ]
 EXTRA_PROP_FILES = ["C16Eps", "C16Gap"]
 RULE = ("(a) lattice sweep: small dyadic Cartesian grids with 1 and 2 axes, every periodicity pattern, every point of "
